@@ -70,7 +70,7 @@ Section R.
     c_psize (w_c w') = c_psize (w_c w) /\ w_err w = false /\ c_at (w_c w) < c_at (w_c w').
   Proof.
     intros Hin Hargs (H1 & H2 & H3 & H4 & H5 & H6 & H7 & H8 & H9 & H10 & H11) Hop He. cbv zeta.
-    rewrite Hop in H11. destruct H11 as (tsb & hs & HC & CH).
+    rewrite Hop in H11. destruct H11 as (tsb & hs & HC & CH & TS).
     rewrite (rec_parts_eq e ts args cv sv pv Hargs) in *.
     destruct Hargs as (O2 & O3 & O4 & _).
     pose proof (wf_ehv _ _ _ WF e ts Hin) as O1.
@@ -159,7 +159,8 @@ Section R.
     replace (c_open (w_c (ser_parts d w3 p4))) with (c_open (w_c w)) by congruence.
     replace (c_off_content (w_c (ser_parts d w3 p4))) with (c_off_content (w_c w)) by congruence.
     rewrite Hop. repeat split; auto.
-    exists tsb, hs. split.
+    exists tsb, hs. split; [|split].
+    3:{ unfold ts_ok in *. replace (obs (w_log (ser_parts d w3 p4))) with (obs (w_log w)) by congruence. exact TS. }
     - eapply hdr_ctx_ok_frame; [..|exact HC]; try congruence.
       + intros p Hp. rewrite B4s. apply G. lia.
       + rewrite B4p. exact P3.
